@@ -5,6 +5,7 @@ import (
 	"go/token"
 	"go/types"
 	"math/big"
+	"strings"
 
 	"golang.org/x/tools/go/ssa"
 )
@@ -844,6 +845,15 @@ func (fr *Frame) next(x *ssa.Next, st *State, reach string) Val {
 	c.smt.assume(implies(not(okT), or(eq(m, "0"), fmt.Sprintf("(forall ((k %s)) (! (=> (select %s k) (select %s k)) :pattern ((select %s k))))", ks, dom, vis, dom))), "range ends when every key was visited")
 	st.ghost[it.Visited] = c.smt.define("vis", c.ghostSorts[it.Visited], ite(okT, sto(vis, k, "true"), vis))
 	kv := Val{T: it.KeyT, Term: k}
+	if fr.parent == nil {
+		kind := "int"
+		if isFloat(it.KeyT) {
+			kind = "float"
+		}
+		if isFloat(it.KeyT) || isInteger(it.KeyT) {
+			c.addWitness(Witness{Path: "rangekey." + strings.TrimPrefix(it.Visited, "visited."), Term: k, Kind: kind, T: it.KeyT})
+		}
+	}
 	vv := Val{T: it.ValT, Term: c.smt.define("rng.v", c.sortOf(it.ValT), val)}
 	c.smt.assume(implies(okT, c.typeFacts(it.ValT, vv.Term)), "")
 	return Val{T: x.Type(), Tuple: []Val{{T: types.Typ[types.Bool], Term: okT}, kv, vv}}
